@@ -339,7 +339,8 @@ def as_pipe(v):
                 v._pipe = it
             else:
                 from .seqs import SSeq
-                v._items = it if isinstance(it, SSeq) else list(it)
+                from .arrays import SArr
+                v._items = it if isinstance(it, (SSeq, SArr)) else list(it)
                 v._pipe = None
         return getattr(v, '_pipe', None)
     return None
@@ -455,6 +456,15 @@ def b_tuple(interp, args, kwargs, node):
     p_ = as_pipe(v)
     if p_ is not None:
         return p_
+    from .arrays import SArr
+    if isinstance(v, SArr):
+        return SArr(v.name, v.dims, v.fixed, v.elem, 'tuple', v.arity, v.alts)
+    if isinstance(v, LazyGen):
+        it0 = v._items if v._items is not None else v.iterator()
+        if isinstance(it0, SArr):
+            return SArr(it0.name, it0.dims, it0.fixed, it0.elem, 'tuple', it0.arity, it0.alts)
+        v._items = it0 if isinstance(it0, SSeq) else list(it0)
+        return tuple(v._items) if not isinstance(v._items, SSeq) else v._items
     if isinstance(v, LazyGen):
         it = v.iterator()
         if isinstance(it, SSeq):
@@ -583,6 +593,12 @@ def isinstance_one(interp, v, t, node):
     from .interp import ClassModel, SObj, Builtin, LazyGen, SymSet, Closure
     from .seqs import SSeq
     from .pipes import SPipe, SNested
+    from .arrays import SArr
+    if isinstance(v, SArr):
+        if isinstance(t, Builtin):
+            return t.name in ('tuple', 'list', 'Iterable') and (t.name != 'list' or v.kind == 'list') and \
+                (t.name != 'tuple' or v.kind == 'tuple')
+        return False
     if isinstance(v, (SPipe, SNested)):
         if isinstance(t, Builtin):
             return t.name in ('tuple', 'Iterable') if isinstance(v, SPipe) else t.name in ('tuple', 'Iterable')
@@ -611,6 +627,8 @@ def isinstance_one(interp, v, t, node):
             return isinstance(v, (set, SymSet))
         if name == 'complex':
             return isinstance(v, (sym.SComplex, complex))
+        if name == 'ndarray':
+            return False          # numpy arrays are outside the modelled value domain
         if name == 'Iterable':
             return isinstance(v, (SStr, str, tuple, list, dict, set, frozenset, range, SSeq,
                                   LazyGen, SymSet)) or \
@@ -1348,6 +1366,7 @@ def make_externals(world):
     reg('collections.abc.Iterable', None)
     ext['collections.abc.Iterable'] = Builtin('Iterable', None)
     ext['collections.abc'] = ExternalModule('collections.abc')
+    ext['numpy.ndarray'] = Builtin('ndarray', None)
     ext['openpyxl.formula.tokenizer.Tokenizer'] = TokenizerConsts()
     ext['operator.eq'] = Builtin('operator.eq', lambda i, a, k, n: i.compare('eq', a[0], a[1], n))
     ext['operator.ne'] = Builtin('operator.ne', lambda i, a, k, n: i.compare('ne', a[0], a[1], n))
